@@ -403,24 +403,40 @@ DetRun(serial, ret, adv, seen, seenHasRs) ==
                  cgVisited, stats, tickFired, lastRet, tpre, lastStop, ops>>
 
 \* after the detectors: pause check, resume a suspended chain or start a new one
-Decide ==
-  /\ phase = "tick" /\ agenda # <<>> /\ Head1.op = "decide"
-  /\ LET rk == Head1.rk IN
-       IF now < st[rk].pauseUntil
-       THEN /\ agenda' = Rest
-            /\ UNCHANGED <<st, ctx, invoking>>
-       ELSE IF st[rk].susp.has
-       THEN /\ ctx' = st[rk].susp.ctx
-            /\ invoking' = rk
-            /\ st' = [st EXCEPT ![rk].susp = NoSusp]
-            /\ agenda' = <<Item("act", rk, 0, st[rk].susp.act, NoPath)>> \o Rest
-       ELSE IF cur.fired # 0
-       THEN /\ agenda' = <<Item("act", rk, 0, 1, NoPath)>> \o Rest
-            /\ UNCHANGED <<st, ctx, invoking>>
-       ELSE /\ agenda' = Rest
-            /\ UNCHANGED <<st, ctx, invoking>>
-  /\ UNCHANGED <<now, phase, defs, bases, insts, hooks, world, cur, uuidCtr, uuidMap,
+\* (four named cases so that model-checking coverage shows each of them was exercised)
+AtDecide == phase = "tick" /\ agenda # <<>> /\ Head1.op = "decide"
+DecideUnch == UNCHANGED <<now, phase, defs, bases, insts, hooks, world, cur, uuidCtr, uuidMap,
                  nextRk, pend, live, cgVisited, stats, tickFired, lastRet, tlog, tpre, lastStop, ops>>
+
+DecidePaused ==
+  /\ AtDecide /\ now < st[Head1.rk].pauseUntil
+  /\ agenda' = Rest
+  /\ UNCHANGED <<st, ctx, invoking>> /\ DecideUnch
+
+DecideResume ==
+  /\ AtDecide /\ ~(now < st[Head1.rk].pauseUntil) /\ st[Head1.rk].susp.has
+  /\ LET rk == Head1.rk IN
+       /\ ctx' = st[rk].susp.ctx
+       /\ invoking' = rk
+       /\ st' = [st EXCEPT ![rk].susp = NoSusp]
+       /\ agenda' = <<Item("act", rk, 0, st[rk].susp.act, NoPath)>> \o Rest
+  /\ DecideUnch
+
+DecideStart ==
+  /\ AtDecide /\ ~(now < st[Head1.rk].pauseUntil) /\ ~st[Head1.rk].susp.has /\ cur.fired # 0
+  /\ agenda' = <<Item("act", Head1.rk, 0, 1, NoPath)>> \o Rest
+  /\ UNCHANGED <<st, ctx, invoking>> /\ DecideUnch
+
+DecideQuiet ==
+  /\ AtDecide /\ ~(now < st[Head1.rk].pauseUntil) /\ ~st[Head1.rk].susp.has /\ cur.fired = 0
+  /\ agenda' = Rest
+  /\ UNCHANGED <<st, ctx, invoking>> /\ DecideUnch
+
+Decide == DecidePaused \/ DecideResume \/ DecideStart \/ DecideQuiet
+
+\* what the documentation says (ghost side): the stopping action's own post_action_delay if it
+\* has one, else the ruleset's.  Kept apart from EffDelay so that the two are compared.
+DeclaredDelay(plugin, def) == IF plugin.delay # -1 THEN plugin.delay ELSE def.delay
 
 EffDelay(rk, k) == IF defs[rk].acts[k].delay >= 0 THEN defs[rk].acts[k].delay ELSE defs[rk].delay
 
@@ -445,7 +461,7 @@ ActRun(serial, ret, adv, seen, seenHasRs) ==
           [] ret = STOP ->
                /\ agenda' = Rest
                /\ st' = [st EXCEPT ![rk].pauseUntil = now' + 1000 * EffDelay(rk, k)]
-               /\ lastStop' = [lastStop EXCEPT ![rk] = [has |-> TRUE, t |-> now', d |-> EffDelay(rk, k)]]
+               /\ lastStop' = [lastStop EXCEPT ![rk] = [has |-> TRUE, t |-> now', d |-> DeclaredDelay(p, d)]]
                /\ lastRet' = 1
           [] ret = ASYNC ->
                /\ agenda' = Rest
